@@ -893,7 +893,7 @@ impl<'a, 'ast> Visit<'ast> for Rules<'a> {
         // R7: X.entry(p).or_insert_with(Vec::new).extend(d) -> hm_append(&mut X, p, d)
         if m == "extend" && mc.args.len() == 1 {
             if let syn::Expr::MethodCall(m2) = &*mc.receiver {
-                if m2.method == "or_insert_with" {
+                if m2.method == "or_insert_with" || m2.method == "or_default" {
                     if let syn::Expr::MethodCall(m3) = &*m2.receiver {
                         if m3.method == "entry" && m3.args.len() == 1 {
                             let whole = self.r(mc.span());
@@ -905,6 +905,19 @@ impl<'a, 'ast> Visit<'ast> for Rules<'a> {
                             return;
                         }
                     }
+                }
+            }
+        }
+        // R7: X.entry(k).or_default() -> hm_entry_or_default(&mut X, k)
+        if m == "or_default" && mc.args.is_empty() {
+            if let syn::Expr::MethodCall(m3) = &*mc.receiver {
+                if m3.method == "entry" && m3.args.len() == 1 {
+                    let whole = self.r(mc.span());
+                    let x = self.src_part(m3.receiver.span());
+                    let pk = self.src_part(m3.args[0].span());
+                    self.push("R7", whole, vec![lit("hm_entry_or_default(&mut "), x, lit(", "), pk, lit(")")]);
+                    self.visit_expr(&m3.receiver);
+                    return;
                 }
             }
         }
